@@ -445,13 +445,16 @@ func genC38(rt *rapid.T) c38Case {
 
 type countingListener struct {
 	net.Listener
-	p *probeServer
+	p     *probeServer
+	count bool // feeds the accepts counter (the all-addresses listener only)
 }
 
 func (l countingListener) Accept() (net.Conn, error) {
 	c, err := l.Listener.Accept()
 	if err == nil {
-		l.p.accepts.Add(1)
+		if l.count {
+			l.p.accepts.Add(1)
+		}
 		l.p.logAccept(c)
 	}
 	return c, err
@@ -478,6 +481,11 @@ type probeServer struct {
 	// log of accepted connections since the last beginWindow (see c38_dns_test.go)
 	logMu sync.Mutex
 	log   []acceptRec
+	// loPort: a second port that is bound on the loopback addresses ONLY
+	// (127.0.0.1 and, where available, ::1): any other address of this machine
+	// refuses a connection to it at once. 0 if it could not be set up.
+	loPort  int
+	loMarks []string // marker URLs, one per loopback-only listener
 }
 
 func (p *probeServer) logAccept(c net.Conn) {
@@ -502,10 +510,23 @@ func (p *probeServer) flagMarker(remote string) {
 	p.logMu.Unlock()
 }
 
+// settleAll is the barrier over every listener (each has its own accept queue).
+func (p *probeServer) settleAll() {
+	p.settledAccepts()
+	for _, u := range p.loMarks {
+		resp, err := p.plain.Get(u)
+		if err != nil {
+			panic("loopback-only probe listener unreachable: " + err.Error())
+		}
+		io.Copy(io.Discard, resp.Body)
+		resp.Body.Close()
+	}
+}
+
 // beginWindow waits until every connection made so far has been accepted and
 // logged, then empties the log.
 func (p *probeServer) beginWindow() {
-	p.settledAccepts()
+	p.settleAll()
 	p.logMu.Lock()
 	p.log = p.log[:0]
 	p.logMu.Unlock()
@@ -514,7 +535,7 @@ func (p *probeServer) beginWindow() {
 // endWindow waits until every connection made so far has been accepted and
 // returns the non-marker connections logged since beginWindow.
 func (p *probeServer) endWindow() []acceptRec {
-	p.settledAccepts()
+	p.settleAll()
 	p.logMu.Lock()
 	defer p.logMu.Unlock()
 	var out []acceptRec
@@ -549,6 +570,11 @@ func getProbeServer() *probeServer {
 			w.Header().Set("Connection", "close")
 			io.WriteString(w, "mark")
 		})
+		mux.HandleFunc("/mark2", func(w http.ResponseWriter, r *http.Request) { // barrier of the loopback-only listeners
+			p.flagMarker(r.RemoteAddr)
+			w.Header().Set("Connection", "close")
+			io.WriteString(w, "mark")
+		})
 		mux.HandleFunc("/redir", func(w http.ResponseWriter, r *http.Request) {
 			code, _ := strconv.Atoi(r.URL.Query().Get("code"))
 			w.Header().Set("Connection", "close")
@@ -565,7 +591,30 @@ func getProbeServer() *probeServer {
 			io.WriteString(w, "ok local="+local)
 		})
 		srv := &http.Server{Handler: mux}
-		go srv.Serve(countingListener{ln, p})
+		go srv.Serve(countingListener{ln, p, true})
+		// the loopback-only port: same number on 127.0.0.1 and ::1
+		for try := 0; try < 20 && p.loPort == 0; try++ {
+			l4, err := net.Listen("tcp4", "127.0.0.1:0")
+			if err != nil {
+				break
+			}
+			port := l4.Addr().(*net.TCPAddr).Port
+			lns := []net.Listener{l4}
+			marks := []string{fmt.Sprintf("http://127.0.0.1:%d/mark2", port)}
+			if hasLoopback6() {
+				l6, err := net.Listen("tcp6", fmt.Sprintf("[::1]:%d", port))
+				if err != nil {
+					l4.Close() // port taken on ::1: try another one
+					continue
+				}
+				lns = append(lns, l6)
+				marks = append(marks, fmt.Sprintf("http://[::1]:%d/mark2", port))
+			}
+			for _, l := range lns {
+				go (&http.Server{Handler: mux}).Serve(countingListener{l, p, false})
+			}
+			p.loPort, p.loMarks = port, marks
+		}
 		p.plain = &http.Client{Transport: &http.Transport{DisableKeepAlives: true, Proxy: nil}}
 		if addrs, err := net.InterfaceAddrs(); err == nil {
 			for _, a := range addrs {
@@ -586,6 +635,15 @@ func getProbeServer() *probeServer {
 		ps = p
 	})
 	return ps
+}
+
+func hasLoopback6() bool {
+	l, err := net.Listen("tcp6", "[::1]:0")
+	if err != nil {
+		return false
+	}
+	l.Close()
+	return true
 }
 
 // settledAccepts returns the number of non-marker connections accepted so far.
